@@ -22,7 +22,8 @@ bytes; `C01_run_content_equal` the whole-sequence corollary (`writtenContent` is
 from the call's arguments).
 
 **Stage 2 (CPython's codecs, in Lean).**  `Model/Codecs.lean` defines ascii, latin-1, utf-8,
-utf-16-le, utf-16-be and utf-16 (BOM) as executable functions; `C01_codec_faithful` and
+utf-16-le, utf-16-be, utf-16 (BOM), utf-32-le, utf-32-be, utf-32 (BOM), utf-8-sig (signature) and
+cp1252 as executable functions; `C01_codec_faithful` and
 `C01_codec_newlines` prove the laws for each of them under each spelling, with the BOM table
 of the repository; `C01_text_roundtrip_concrete` is the round trip without any hypothesis on
 the environment.
@@ -30,9 +31,12 @@ the environment.
 **A law that is false of CPython.**  `encode (t ++ u) = encode t ++ strip_bom (encode u)` does
 not hold for all `u`: `strip_bom` removes a leading `EF BB BF` from UTF-8 data (`FF FE` from
 `utf-16-le` data, `FE FF` from `utf-16-be` data) even when the encoder produced it for a
-genuine U+FEFF at the start of `u`.  `CodecFaithful.enc_append` therefore carries the side
+genuine U+FEFF at the start of `u`; likewise `FF FE 00 00` from `utf-32-le` and `00 00 FE FF`
+from `utf-32-be` data.  `CodecFaithful.enc_append` therefore carries the side
 condition `u.head? ≠ some 0xFEFF` (the newline texts satisfy it);
-`C01_enc_append_needs_side_condition` is the counterexample, evaluated.
+`C01_enc_append_needs_side_condition` is the counterexample, evaluated.  The codecs whose
+encoder always emits a mark (`utf-16`, `utf-32`, `utf-8-sig`) are immune: what `strip_bom` removes
+is the encoder's mark, one only.
 -/
 namespace Diffx.C01
 open Diffx Diffx.RunRT
@@ -141,7 +145,7 @@ variable (dumps : Json → EnvR Text) (loadsText : Text → EnvR Json) (loadsByt
 /-- the BOM table of `Codecs.cfg` is the one extracted from the repository -/
 theorem C01_codecs_cfg : Codecs.cfg = Generated.config := Codecs.cfg_eq
 
-/-- **Decoding undoes encoding** for each of the six codecs (statement about the codec functions
+/-- **Decoding undoes encoding** for each of the codecs (statement about the codec functions
 alone). -/
 theorem C01_codec_decode_encode (c : Codecs.Codec) (t : Text) (b : Bytes) (h : c.encode t = some b) :
     c.decode b = some t :=
@@ -164,7 +168,9 @@ theorem C01_codec_newlines (e : Name) (c : Codecs.Codec) (he : Codecs.lookup e =
 theorem C01_codec_names :
     Codecs.aliases.map (·.1) =
       [t!"ascii", t!"latin1", t!"latin-1", t!"iso-8859-1", t!"iso8859-1", t!"utf-8", t!"utf8", t!"UTF-8",
-       t!"utf-16", t!"utf-16-le", t!"utf-16-be"] ∧
+       t!"utf-16", t!"utf-16-le", t!"utf-16-be", t!"utf-32", t!"utf32", t!"UTF-32", t!"utf-32-le", t!"utf-32-be",
+       t!"utf-8-sig", t!"UTF-8-SIG", t!"cp1252", t!"windows-1252", t!"UTF-16", t!"utf_16", t!"utf16", t!"latin_1",
+       t!"us-ascii"] ∧
     (∀ p ∈ Codecs.aliases, Codecs.lookup p.1 = some p.2 ∧ NameOk p.1) ∧
     (∀ c ∈ Codecs.Codec.all, Codecs.lookup c.name = some c) := by
   refine ⟨rfl, ?_, by decide⟩
@@ -242,6 +248,21 @@ example : cenv.encode t!"utf-16-le" [0xFEFF] = .ok [0xFF, 0xFE] ∧
     stripBom cenv Codecs.cfg [0xFF, 0xFE, 0xFF, 0xFE] (some t!"utf-16") = .ok [0xFF, 0xFE] :=
   ⟨rfl, rfl, rfl, rfl, rfl, rfl⟩
 
+/-- the same for `utf-32-le` (`FF FE 00 00`) and `utf-32-be` (`00 00 FE FF`); `utf-32` and `utf-8-sig`
+are immune like `utf-16`: the encoder's mark is stripped, the encoded U+FEFF stays -/
+example : cenv.encode t!"utf-32-le" [0xFEFF] = .ok [0xFF, 0xFE, 0, 0] ∧
+    stripBom cenv Codecs.cfg [0xFF, 0xFE, 0, 0] (some t!"utf-32-le") = .ok [] ∧
+    cenv.encode t!"utf-32-be" [0xFEFF] = .ok [0, 0, 0xFE, 0xFF] ∧
+    stripBom cenv Codecs.cfg [0, 0, 0xFE, 0xFF] (some t!"utf-32-be") = .ok [] ∧
+    cenv.encode t!"utf-32" [0xFEFF] = .ok [0xFF, 0xFE, 0, 0, 0xFF, 0xFE, 0, 0] ∧
+    stripBom cenv Codecs.cfg [0xFF, 0xFE, 0, 0, 0xFF, 0xFE, 0, 0] (some t!"utf-32") = .ok [0xFF, 0xFE, 0, 0] ∧
+    cenv.encode t!"utf-8-sig" [0xFEFF] = .ok [0xEF, 0xBB, 0xBF, 0xEF, 0xBB, 0xBF] ∧
+    stripBom cenv Codecs.cfg [0xEF, 0xBB, 0xBF, 0xEF, 0xBB, 0xBF] (some t!"utf-8-sig") = .ok [0xEF, 0xBB, 0xBF] ∧
+    stripBom cenv Codecs.cfg [0xEF, 0xBB, 0xBF, 0x0A] (some t!"UTF-8-SIG") = .ok [0x0A] ∧
+    stripBom cenv Codecs.cfg [0xFF, 0xFE, 0, 0, 0x0A, 0, 0, 0] (some t!"utf32") = .ok [0x0A, 0, 0, 0] ∧
+    stripBom cenv Codecs.cfg [0xEF, 0xBB, 0xBF] (some t!"cp1252") = .ok [0xEF, 0xBB, 0xBF] :=
+  ⟨rfl, rfl, rfl, rfl, rfl, rfl, rfl, rfl, rfl, rfl, rfl⟩
+
 /-! ## Tests: the codecs on concrete texts (CPython's answers) -/
 
 open Codecs in
@@ -303,15 +324,124 @@ example : Codec.utf16.encode [] = some [0xFF, 0xFE] ∧ Codec.utf16.decode [0xFF
     Codec.utf16le.decode [0x3D, 0xD8] = none ∧ Codec.utf16le.decode [0x00, 0xDE] = none ∧
     Codec.utf16le.decode [0x3D, 0xD8, 0x61, 0x00] = none ∧ Codec.utf16le.decode [0x61] = none ∧
     Codec.utf16.decode [0xFF] = none := by decide
+open Codecs in
+example : Codec.utf32.encode sample =
+    some [0xFF, 0xFE, 0, 0, 0x61, 0, 0, 0, 0xE9, 0, 0, 0, 0xAC, 0x20, 0, 0, 0x00, 0xF6, 0x01, 0, 0x0D, 0, 0, 0,
+      0x0A, 0, 0, 0, 0x62, 0, 0, 0, 0x0A, 0, 0, 0, 0x63, 0, 0, 0, 0x0D, 0, 0, 0] := by decide
+open Codecs in
+example : Codec.utf32le.encode sample =
+    some [0x61, 0, 0, 0, 0xE9, 0, 0, 0, 0xAC, 0x20, 0, 0, 0x00, 0xF6, 0x01, 0, 0x0D, 0, 0, 0,
+      0x0A, 0, 0, 0, 0x62, 0, 0, 0, 0x0A, 0, 0, 0, 0x63, 0, 0, 0, 0x0D, 0, 0, 0] := by decide
+open Codecs in
+example : Codec.utf32be.encode sample =
+    some [0, 0, 0, 0x61, 0, 0, 0, 0xE9, 0, 0, 0x20, 0xAC, 0, 0x01, 0xF6, 0x00, 0, 0, 0, 0x0D,
+      0, 0, 0, 0x0A, 0, 0, 0, 0x62, 0, 0, 0, 0x0A, 0, 0, 0, 0x63, 0, 0, 0, 0x0D] := by decide
+open Codecs in
+example : Codec.utf8sig.encode sample =
+    some [0xEF, 0xBB, 0xBF, 0x61, 0xC3, 0xA9, 0xE2, 0x82, 0xAC, 0xF0, 0x9F, 0x98, 0x80, 0x0D, 0x0A, 0x62, 0x0A, 0x63,
+      0x0D] := by decide
+open Codecs in
+example : (Codec.utf32.encode sample).bind Codec.utf32.decode = some sample ∧
+    (Codec.utf32le.encode sample).bind Codec.utf32le.decode = some sample ∧
+    (Codec.utf32be.encode sample).bind Codec.utf32be.decode = some sample ∧
+    (Codec.utf32be.encode sample).bind Codec.utf32.decode = none ∧
+    (Codec.utf8sig.encode sample).bind Codec.utf8sig.decode = some sample ∧
+    (Codec.utf8sig.encode sample).bind Codec.utf8.decode = some (0xFEFF :: sample) ∧
+    (Codec.utf8.encode sample).bind Codec.utf8sig.decode = some sample := by decide
+open Codecs in
+/-- UTF-32 corners: `''.encode('utf-32') == b'\xff\xfe\0\0'`, a big-endian BOM switches the byte
+order, only one BOM is consumed, `-le` / `-be` keep U+FEFF, surrogates and values above U+10FFFF are
+errors both ways, as is a length that is not a multiple of four; `FE FF 00 00` is U+FFFE, no BOM -/
+example : Codec.utf32.encode [] = some [0xFF, 0xFE, 0x00, 0x00] ∧
+    Codec.utf32.decode [0xFF, 0xFE, 0x00, 0x00] = some [] ∧
+    Codec.utf32.decode [] = some [] ∧
+    Codec.utf32.decode [0x00, 0x00, 0xFE, 0xFF, 0x00, 0x00, 0x00, 0x61] = some [0x61] ∧
+    Codec.utf32.decode [0x61, 0x00, 0x00, 0x00] = some [0x61] ∧
+    Codec.utf32.encode [0xFEFF, 0x61] = some [0xFF, 0xFE, 0x00, 0x00, 0xFF, 0xFE, 0x00, 0x00, 0x61, 0x00, 0x00, 0x00] ∧
+    Codec.utf32.decode [0xFF, 0xFE, 0x00, 0x00, 0xFF, 0xFE, 0x00, 0x00, 0x61, 0x00, 0x00, 0x00] = some [0xFEFF, 0x61] ∧
+    Codec.utf32.decode [0xFF, 0xFE, 0x00, 0x00, 0x00, 0x00, 0xFE, 0xFF] = none ∧
+    Codec.utf32le.decode [0xFF, 0xFE, 0x00, 0x00, 0x61, 0x00, 0x00, 0x00] = some [0xFEFF, 0x61] ∧
+    Codec.utf32be.decode [0x00, 0x00, 0xFE, 0xFF, 0x00, 0x00, 0x00, 0x61] = some [0xFEFF, 0x61] ∧
+    Codec.utf32le.encode [0xD800] = none ∧
+    Codec.utf32be.encode [0xDFFF] = none ∧
+    Codec.utf32le.encode [0x110000] = none ∧
+    Codec.utf32le.encode [0xD7FF, 0xE000, 0x10FFFF] =
+      some [0xFF, 0xD7, 0x00, 0x00, 0x00, 0xE0, 0x00, 0x00, 0xFF, 0xFF, 0x10, 0x00] ∧
+    Codec.utf32le.decode [0x00, 0xD8, 0x00, 0x00] = none ∧
+    Codec.utf32le.decode [0xFF, 0xDF, 0x00, 0x00] = none ∧
+    Codec.utf32le.decode [0x00, 0x00, 0x11, 0x00] = none ∧
+    Codec.utf32le.decode [0xFF, 0xFF, 0x10, 0x00] = some [0x10FFFF] ∧
+    Codec.utf32be.decode [0x00, 0x11, 0x00, 0x00] = none ∧
+    Codec.utf32be.decode [0x01, 0x00, 0x00, 0x00] = none ∧
+    Codec.utf32le.decode [0x61, 0x00, 0x00] = none ∧
+    Codec.utf32le.decode [0x61, 0x00, 0x00, 0x00, 0x62] = none ∧
+    Codec.utf32.decode [0xFF, 0xFE, 0x00] = none ∧
+    Codec.utf32.decode [0xFF, 0xFE, 0x00, 0x00, 0x61, 0x00] = none ∧
+    Codec.utf32.decode [0xFE, 0xFF, 0x00, 0x00] = some [0xFFFE] := by decide
+open Codecs in
+/-- UTF-8-SIG corners: `''.encode('utf-8-sig') == b'\xef\xbb\xbf'`; the decoder removes one leading
+signature, if any (so plain UTF-8 decodes too); a U+FEFF written at the start survives; a signature
+elsewhere is data; a truncated signature and ill-formed UTF-8 after it are errors -/
+example : Codec.utf8sig.encode [] = some [0xEF, 0xBB, 0xBF] ∧
+    Codec.utf8sig.decode [] = some [] ∧
+    Codec.utf8sig.decode [0xEF, 0xBB, 0xBF] = some [] ∧
+    Codec.utf8sig.decode [0x61] = some [0x61] ∧
+    Codec.utf8sig.decode [0xEF, 0xBB, 0xBF, 0x61] = some [0x61] ∧
+    Codec.utf8sig.encode [0xFEFF, 0x61] = some [0xEF, 0xBB, 0xBF, 0xEF, 0xBB, 0xBF, 0x61] ∧
+    Codec.utf8sig.decode [0xEF, 0xBB, 0xBF, 0xEF, 0xBB, 0xBF, 0x61] = some [0xFEFF, 0x61] ∧
+    Codec.utf8sig.decode [0x61, 0xEF, 0xBB, 0xBF] = some [0x61, 0xFEFF] ∧
+    Codec.utf8sig.decode [0xEF, 0xBB] = none ∧
+    Codec.utf8sig.decode [0xEF, 0xBB, 0xBF, 0xC0, 0x80] = none ∧
+    Codec.utf8sig.decode [0xEF, 0xBB, 0xBF, 0xED, 0xA0, 0x80] = none ∧
+    Codec.utf8sig.encode [0xD800] = none ∧
+    Codec.utf8sig.encode [0xE9, 0x20AC, 0x1F600] =
+      some [0xEF, 0xBB, 0xBF, 0xC3, 0xA9, 0xE2, 0x82, 0xAC, 0xF0, 0x9F, 0x98, 0x80] := by decide
+open Codecs in
+/-- cp1252: the rows `0x80–0x9F`, the five undefined bytes (both directions: U+0081 … are not
+encodable either), Latin-1 above `0xA0`, nothing beyond the table -/
+example : Codec.cp1252.encode t!"h€llo “x” ™ÿ\r\n" =
+      some [0x68, 0x80, 0x6C, 0x6C, 0x6F, 0x20, 0x93, 0x78, 0x94, 0x20, 0x99, 0xFF, 0x0D, 0x0A] ∧
+    Codec.cp1252.encode [0x81] = none ∧
+    Codec.cp1252.encode [0x80] = none ∧
+    Codec.cp1252.encode [0x9F] = none ∧
+    Codec.cp1252.encode [0xA0, 0xFF] = some [0xA0, 0xFF] ∧
+    Codec.cp1252.encode [0x100] = none ∧
+    Codec.cp1252.encode [0x1F600] = none ∧
+    Codec.cp1252.encode [0xFEFF] = none ∧
+    Codec.cp1252.encode [0x178, 0x17E] = some [0x9F, 0x9E] ∧
+    Codec.cp1252.decode [0x80, 0x82, 0x8C, 0x8E, 0x91, 0x9F, 0xA0, 0xE9, 0xFF, 0x0D, 0x0A] =
+      some [0x20AC, 0x201A, 0x152, 0x17D, 0x2018, 0x178, 0xA0, 0xE9, 0xFF, 0xD, 0xA] ∧
+    Codec.cp1252.decode [0x81] = none ∧
+    Codec.cp1252.decode [0x8D] = none ∧
+    Codec.cp1252.decode [0x8F] = none ∧
+    Codec.cp1252.decode [0x90] = none ∧
+    Codec.cp1252.decode [0x9D] = none ∧
+    Codec.cp1252.decode [0x61, 0x9D] = none ∧
+    Codec.cp1252.decode [0xEF, 0xBB, 0xBF] = some [0xEF, 0xBB, 0xBF] := by decide
+open Codecs in
+/-- cp1252, the whole block `0x80–0x9F` as CPython decodes it (`none`: `UnicodeDecodeError`), and
+back -/
+example : ((List.range 32).map fun i => Codec.cp1252.decode [(0x80 + i).toUInt8]) =
+    [some [0x20AC], none, some [0x201A], some [0x0192], some [0x201E], some [0x2026], some [0x2020], some [0x2021],
+     some [0x02C6], some [0x2030], some [0x0160], some [0x2039], some [0x0152], none, some [0x017D], none,
+     none, some [0x2018], some [0x2019], some [0x201C], some [0x201D], some [0x2022], some [0x2013], some [0x2014],
+     some [0x02DC], some [0x2122], some [0x0161], some [0x203A], some [0x0153], none, some [0x017E], some [0x0178]] ∧
+    (∀ p ∈ cp1252Table, Codec.cp1252.encode [p.1] = some [p.2] ∧ Codec.cp1252.decode [p.2] = some [p.1]) := by
+  decide
 /-- names: aliases, canonical names, unknown names -/
 example : cenv.canon t!"latin-1" = .ok t!"iso8859-1" ∧ cenv.canon t!"UTF-8" = .ok t!"utf-8" ∧
-    cenv.canon t!"utf-16-le" = .ok t!"utf-16-le" ∧
+    cenv.canon t!"utf-16-le" = .ok t!"utf-16-le" ∧ cenv.canon t!"utf32" = .ok t!"utf-32" ∧
+    cenv.canon t!"UTF-8-SIG" = .ok t!"utf-8-sig" ∧ cenv.canon t!"windows-1252" = .ok t!"cp1252" ∧
+    cenv.canon t!"utf_16" = .ok t!"utf-16" ∧ cenv.canon t!"latin_1" = .ok t!"iso8859-1" ∧
+    cenv.canon t!"us-ascii" = .ok t!"ascii" ∧
     (match cenv.canon t!"klingon" with | .err => true | _ => false) = true ∧
-    (match cenv.encode t!"klingon" [] with | .err => true | _ => false) = true := ⟨rfl, rfl, rfl, rfl, rfl⟩
+    (match cenv.encode t!"klingon" [] with | .err => true | _ => false) = true :=
+  ⟨rfl, rfl, rfl, rfl, rfl, rfl, rfl, rfl, rfl, rfl, rfl⟩
 /-- the BOM-free newlines -/
 example : (Codecs.Codec.all.map fun c => (c.nl false, c.nl true)) =
     [([10], [13, 10]), ([10], [13, 10]), ([10], [13, 10]), ([10, 0], [13, 0, 10, 0]), ([10, 0], [13, 0, 10, 0]),
-     ([0, 10], [0, 13, 0, 10])] := by decide
+     ([0, 10], [0, 13, 0, 10]), ([10, 0, 0, 0], [13, 0, 0, 0, 10, 0, 0, 0]), ([10, 0, 0, 0], [13, 0, 0, 0, 10, 0, 0, 0]),
+     ([0, 0, 0, 10], [0, 0, 0, 13, 0, 0, 0, 10]), ([10], [13, 10]), ([10], [13, 10])] := by decide
 
 /-! ## Closed instances of `C01_text_roundtrip_concrete`, one per codec family -/
 
@@ -420,6 +550,112 @@ theorem C01_text_roundtrip_utf16be :
   unfold cenv at h0
   rw [h0] at hp
   obtain rfl : data16be = data := (Prod.mk.inj (Except.ok.inj hp)).1
+  exact hr (by decide) b!"#.change:\n" 0 none
+
+/-- `utf-32` (BOM), inherited; `indent=2`; kind detected on the first line (dos): the CRLF is appended,
+in UTF-32 (eight bytes); the BOM is written once, after the indentation of the first line -/
+def wst32 : Writer.St := ⟨[], [some t!"utf-8", some t!"utf-32"], none⟩
+def data32 : Bytes :=
+  [32, 32, 255, 254, 0, 0, 104, 0, 0, 0, 233, 0, 0, 0, 108, 0, 0, 0, 108, 0, 0, 0, 111, 0, 0, 0, 32, 0, 0, 0, 0, 246,
+   1, 0, 13, 0, 0, 0, 10, 0, 0, 0, 32, 32, 35, 0, 0, 0, 46, 0, 0, 0, 99, 0, 0, 0, 104, 0, 0, 0, 97, 0, 0, 0, 110, 0,
+   0, 0, 103, 0, 0, 0, 101, 0, 0, 0, 58, 0, 0, 0, 10, 0, 0, 0, 119, 0, 0, 0, 246, 0, 0, 0, 114, 0, 0, 0, 108, 0, 0,
+   0, 100, 0, 0, 0, 13, 0, 0, 0, 10, 0, 0, 0]
+
+set_option maxRecDepth 16384 in
+theorem prepared32 :
+    Writer.prepareContent cenv Codecs.cfg wst32 (.str txt) (some 2) none none true = .ok (data32, t!"dos") := rfl
+
+set_option maxRecDepth 16384 in
+theorem C01_text_roundtrip_utf32 :
+    Reader.readContent cenv Codecs.cfg ⟨data32 ++ b!"#.change:\n", 5, some false⟩ 112
+        (some (.str b!"utf-32")) (some (.int 2)) (some (.str b!"dos")) false =
+      .ok (.text t!"héllo 😀\r\n#.change:\nwörld\r\n", ⟨b!"#.change:\n", 7, some false⟩) := by
+  obtain ⟨data, hp, hr⟩ := C01_text_roundtrip_concrete (fun _ => .ok t!"{\"k\": 1}") (fun _ => .ok jk)
+    (fun _ => .ok jk) t!"utf-32" .utf32 rfl wst32 none rfl txt (by decide) _ rfl none (by intro l h; cases h)
+    (some 2) (by intro i h; cases h; decide)
+  have h0 := prepared32
+  unfold cenv at h0
+  rw [h0] at hp
+  obtain rfl : data32 = data := (Prod.mk.inj (Except.ok.inj hp)).1
+  exact hr (by decide) b!"#.change:\n" 5 (some false)
+
+/-- `utf-32-be` given, `line_endings='dos'`, no indentation; the text begins with U+FEFF, which is
+data for `utf-32-be` (written as `00 00 FE FF`, read back) -/
+def txtB : Text := 0xFEFF :: txt
+def data32be : Bytes :=
+  [0, 0, 254, 255, 0, 0, 0, 104, 0, 0, 0, 233, 0, 0, 0, 108, 0, 0, 0, 108, 0, 0, 0, 111, 0, 0, 0, 32, 0, 1, 246, 0,
+   0, 0, 0, 13, 0, 0, 0, 10, 0, 0, 0, 35, 0, 0, 0, 46, 0, 0, 0, 99, 0, 0, 0, 104, 0, 0, 0, 97, 0, 0, 0, 110, 0, 0, 0,
+   103, 0, 0, 0, 101, 0, 0, 0, 58, 0, 0, 0, 10, 0, 0, 0, 119, 0, 0, 0, 246, 0, 0, 0, 114, 0, 0, 0, 108, 0, 0, 0, 100,
+   0, 0, 0, 13, 0, 0, 0, 10]
+
+set_option maxRecDepth 16384 in
+theorem prepared32be :
+    Writer.prepareContent cenv Codecs.cfg wst8 (.str txtB) none (some t!"dos") (some t!"utf-32-be") true =
+      .ok (data32be, t!"dos") := rfl
+
+set_option maxRecDepth 16384 in
+theorem C01_text_roundtrip_utf32be :
+    Reader.readContent cenv Codecs.cfg ⟨data32be ++ b!"#.change:\n", 0, none⟩ 108
+        (some (.str b!"utf-32-be")) none (some (.str b!"dos")) false =
+      .ok (.text (0xFEFF :: t!"héllo 😀\r\n#.change:\nwörld\r\n"), ⟨b!"#.change:\n", 2, none⟩) := by
+  obtain ⟨data, hp, hr⟩ := C01_text_roundtrip_concrete (fun _ => .ok t!"{\"k\": 1}") (fun _ => .ok jk)
+    (fun _ => .ok jk) t!"utf-32-be" .utf32be rfl wst8 (some t!"utf-32-be") rfl txtB (by decide) _ rfl (some t!"dos")
+    (by intro l h; cases h; exact ⟨true, rfl⟩) none (by intro i h; cases h)
+  have h0 := prepared32be
+  unfold cenv at h0
+  rw [h0] at hp
+  obtain rfl : data32be = data := (Prod.mk.inj (Except.ok.inj hp)).1
+  exact hr (by decide) b!"#.change:\n" 0 none
+
+/-- `utf-8-sig` given, `line_endings='unix'`, `indent=1`; the text begins with U+FEFF: the encoder's
+signature and the encoded U+FEFF are both written, the decoder removes one -/
+def data8sig : Bytes :=
+  [32, 239, 187, 191, 239, 187, 191, 104, 195, 169, 108, 108, 111, 32, 240, 159, 152, 128, 13, 10, 32, 35, 46, 99,
+   104, 97, 110, 103, 101, 58, 10, 32, 119, 195, 182, 114, 108, 100, 10]
+
+set_option maxRecDepth 16384 in
+theorem prepared8sig :
+    Writer.prepareContent cenv Codecs.cfg wst8 (.str txtB) (some 1) (some t!"unix") (some t!"utf-8-sig") true =
+      .ok (data8sig, t!"unix") := rfl
+
+set_option maxRecDepth 16384 in
+theorem C01_text_roundtrip_utf8sig :
+    Reader.readContent cenv Codecs.cfg ⟨data8sig ++ b!"#.change:\n", 0, none⟩ 39
+        (some (.str b!"utf-8-sig")) (some (.int 1)) (some (.str b!"unix")) false =
+      .ok (.text (0xFEFF :: t!"héllo 😀\r\n#.change:\nwörld\n"), ⟨b!"#.change:\n", 3, none⟩) := by
+  obtain ⟨data, hp, hr⟩ := C01_text_roundtrip_concrete (fun _ => .ok t!"{\"k\": 1}") (fun _ => .ok jk)
+    (fun _ => .ok jk) t!"utf-8-sig" .utf8sig rfl wst8 (some t!"utf-8-sig") rfl txtB (by decide) _ rfl (some t!"unix")
+    (by intro l h; cases h; exact ⟨false, rfl⟩) (some 1) (by intro i h; cases h; decide)
+  have h0 := prepared8sig
+  unfold cenv at h0
+  rw [h0] at hp
+  obtain rfl : data8sig = data := (Prod.mk.inj (Except.ok.inj hp)).1
+  exact hr (by decide) b!"#.change:\n" 0 none
+
+/-- `windows-1252` given (an alias of `cp1252`), `indent=3`, kind detected (dos): the euro sign, the
+curly quotes and the trade mark sign are single bytes of the block `0x80–0x9F` -/
+def txt1252 : Text := t!"h€llo “x”\r\n#.change:\nwörld™"
+def data1252 : Bytes :=
+  [32, 32, 32, 104, 128, 108, 108, 111, 32, 147, 120, 148, 13, 10, 32, 32, 32, 35, 46, 99, 104, 97, 110, 103, 101,
+   58, 10, 119, 246, 114, 108, 100, 153, 13, 10]
+
+set_option maxRecDepth 16384 in
+theorem prepared1252 :
+    Writer.prepareContent cenv Codecs.cfg wst8 (.str txt1252) (some 3) none (some t!"windows-1252") true =
+      .ok (data1252, t!"dos") := rfl
+
+set_option maxRecDepth 16384 in
+theorem C01_text_roundtrip_cp1252 :
+    Reader.readContent cenv Codecs.cfg ⟨data1252 ++ b!"#.change:\n", 0, none⟩ 35
+        (some (.str b!"windows-1252")) (some (.int 3)) (some (.str b!"dos")) false =
+      .ok (.text t!"h€llo “x”\r\n#.change:\nwörld™\r\n", ⟨b!"#.change:\n", 2, none⟩) := by
+  obtain ⟨data, hp, hr⟩ := C01_text_roundtrip_concrete (fun _ => .ok t!"{\"k\": 1}") (fun _ => .ok jk)
+    (fun _ => .ok jk) t!"windows-1252" .cp1252 rfl wst8 (some t!"windows-1252") rfl txt1252 (by decide) _ rfl none
+    (by intro l h; cases h) (some 3) (by intro i h; cases h; decide)
+  have h0 := prepared1252
+  unfold cenv at h0
+  rw [h0] at hp
+  obtain rfl : data1252 = data := (Prod.mk.inj (Except.ok.inj hp)).1
   exact hr (by decide) b!"#.change:\n" 0 none
 
 /-! ## Closed instance of `C01_run_content_equal` with the concrete codecs -/
